@@ -17,7 +17,7 @@ ASSUMPTIONS = ['matrix-level oracle |M_ref(q) - R|_max: Shepperd and Bar-Itzhack
                'not judged beyond, as in the statement',
                'result must be a real floating array of shape (4,), finite, | |q| - 1 | <= 1e-12',
                'Sarabandi is exercised with its default threshold and with threshold=0.5']
-REQUIRED_CLASSES = ['shepperd pivot 0', 'shepperd pivot 1', 'shepperd pivot 2', 'shepperd pivot 3', 'angle=0', 'angle=pi',
+REQUIRED_CLASSES = ['small-stacks', 'shepperd pivot 0', 'shepperd pivot 1', 'shepperd pivot 2', 'shepperd pivot 3', 'angle=0', 'angle=pi',
                     'angle<1e-6', 'pi-angle<1e-6', 'trace<=0']
 
 METHODS = [('shepperd', {}), ('hughes', {}), ('chiaverini', {}), ('itzhack', {'version': 1}), ('itzhack', {'version': 2}),
@@ -200,6 +200,69 @@ def job_sequences(ctx, k):
     ctx.sample({'sequence': ['sarabandi[threshold=3.0]', 'sarabandi(defaults)'], 'matrix': 'identity'})
 
 
+def job_derived(ctx, k):
+    """DCM objects that NumPy derives from other DCM objects (R.T, R1 @ R2, R.copy(), R[:], R.view(), np.transpose(R)) and short stacks of
+    every small N: a conversion that ANSWERS gives the quaternion of the object's own matrix (a refusal is not judged)."""
+    from ahrs import DCM, QuaternionArray
+    M = matrices(k)
+    pick = [m for m in M if 0.3 < m[2] < math.pi - 0.3][::max(1, len(M) // 12)][:10]
+    for i, (lab, R, ang) in enumerate(pick):
+        lab2, R2, ang2 = pick[(i + 3) % len(pick)]
+        D1, D2 = DCM(R.copy()), DCM(R2.copy())
+        derived = [('R.T', lambda: D1.T, R.T), ('R1@R2', lambda: D1 @ D2, R @ R2), ('R.copy()', lambda: D1.copy(), R), ('R[:]', lambda: D1[:], R), ('R.view()', lambda: D1.view(), R),
+                   ('np.transpose(R)', lambda: np.transpose(D1), R.T), ('R.T.T', lambda: D1.T.T, R), ('R1@R2.T', lambda: D1 @ D2.T, R @ R2.T), ('M.view(DCM)', lambda: R2.copy().view(DCM), R2)]
+        for dn, mk, Rown in derived:
+            try:
+                obj = mk()
+            except Exception:
+                ctx.outcome(('derive-refused', dn)); continue
+            if not isinstance(obj, DCM):
+                ctx.outcome(('derive-plain', dn)); continue
+            angle_own = rq.rot_angle_R(Rown)
+            if not (0.05 < angle_own < math.pi - 0.05):
+                continue
+            for meth, kw in METHODS:
+                mn = mname(meth, kw)
+                for rn, call in (('to_quaternion', lambda: obj.to_quaternion(method=meth, **kw)), ('to_q', lambda: obj.to_q(method=meth, **kw))):
+                    try:
+                        q = call()
+                    except Exception:
+                        ctx.outcome(('derived-refused', dn, rn)); continue
+                    _judge(ctx, q, Rown, angle_own, mn, meth, f'{dn}.{rn}() on a derived DCM object', f'{lab}|{lab2}')
+            ctx.cls('derived-objects'); ctx.seen(('derived', lab, dn))
+    # stacks of every small N through the array constructor and the batch functions
+    from ahrs.common import orientation as O
+    gen = [m for m in M if 0.2 < m[2] < math.pi - 0.2]
+    for nb in (1, 2, 3, 4, 5):
+        for off in (0, len(gen) // 2):
+            sub = gen[off:off + nb]
+            Rs = np.array([m[1] for m in sub])
+            for meth, kw in METHODS:
+                mn = mname(meth, kw)
+                try:
+                    Q = np.asarray(QuaternionArray(DCM=Rs.copy(), method=meth, **kw))
+                except Exception as ex:
+                    ctx.evals += 1
+                    ctx.fail(f'QuaternionArray(DCM=N matrices): {mn} raises', f'N={nb} offset={off}', f'{type(ex).__name__}: {ex}'[:160], 'N quaternions')
+                    continue
+                if Q.shape != (nb, 4):
+                    ctx.fail(f'QuaternionArray(DCM=N matrices): {mn} shape', f'N={nb} offset={off}', list(Q.shape), [nb, 4]); continue
+                for (lab, R, ang), q in zip(sub, Q):
+                    _judge(ctx, np.array(q), R, ang, mn, meth, f'QuaternionArray(DCM=N matrices, N={nb})', lab)
+            for fname in ('hughes', 'chiaverini'):
+                try:
+                    Q = np.asarray(getattr(O, fname)(Rs.copy()))
+                except Exception as ex:
+                    ctx.evals += 1
+                    ctx.fail(f'{fname}(N x 3 x 3) raises', f'N={nb} offset={off}', f'{type(ex).__name__}: {ex}'[:160], 'N quaternions'); continue
+                if Q.shape != (nb, 4):
+                    ctx.fail(f'{fname}(N x 3 x 3) shape', f'N={nb} offset={off}', list(Q.shape), [nb, 4]); continue
+                for (lab, R, ang), q in zip(sub, Q):
+                    _judge(ctx, np.array(q), R, ang, fname, fname, f'{fname}(N x 3 x 3, N={nb})', lab)
+        ctx.cls('small-stacks')
+    ctx.sample({'derived': ['R.T', 'R1@R2', 'R.copy()', 'R[:]', 'R.view()', 'np.transpose(R)'], 'stack_sizes': [1, 2, 3, 4, 5]})
+
+
 def run(ctx):
     ks = list(range(8)) if ctx.thorough else [A.seed_k(ctx.seed)]
     jobs = []
@@ -209,5 +272,6 @@ def run(ctx):
         jobs.append(('job_batch', (k,)))
         jobs.append(('job_options', (k,)))
         jobs.append(('job_sequences', (k,)))
+        jobs.append(('job_derived', (k,)))
     core.run_jobs(ctx, __name__, jobs)
     ctx.notes['matrices_per_menu_entry'] = len(matrices(ks[0]))
